@@ -1217,7 +1217,7 @@ class ExcAnalysis:
         for n in ast.walk(e):
             if isinstance(n, ast.Name) and n.id in tainted:
                 return True
-            if isinstance(n, ast.Attribute):
+            if isinstance(n, ast.Attribute) and not isinstance(n.value, ast.Call):  # a call result is not received text
                 at = self.cg.atoms(f, n.value) or self.cg._fallback_atoms(f, n.value) or ()
                 if any(a[:2] == "I:" and a[2:] in INPUT_TYPES for a in at):
                     return True
